@@ -277,6 +277,29 @@ def link_rows_follow_node_deletes(rep: Report, ctx: Ctx, rule: str,
                     ok = dom and post
                     why = why + (f"; {how}" if not ok else "")
                     break
+        if not ok:
+            # alternative: the links of exactly the spans about to be deleted
+            # are removed first, in the same transaction
+            for y in reversed(it.execs[:i]):
+                if y.kind == "commit":
+                    break
+                if isinstance(y.stmt, S.Delete) and table_of(
+                        y.stmt) == "NODE_ASSOCIATION" and len(
+                        y.stmt.where) == 1:
+                    w = y.stmt.where[0]
+                    if isinstance(w, S.In) and not w.negated and isinstance(
+                            w.col, S.Col) and w.col.name == "child_id" \
+                            and isinstance(w.what, S.Select) and [
+                                c.nf() for c in w.what.cols] == [
+                                "nodes.event_id"] and tuple(
+                                q.nf() for q in w.what.where) == tuple(
+                                q.nf() for q in x.stmt.where):
+                        dom, how = exec_dominates(ctx, y, x)
+                        if dom:
+                            ok, why = True, ("links of the spans selected "
+                                             "for deletion are removed "
+                                             "first")
+                        break
         if not ok and cascade:
             raise AnalysisError("link rows are maintained by an ON DELETE "
                                 "CASCADE design: outside the rule's "
